@@ -45,7 +45,7 @@ let e3_label_of (name : string) (a : int) (b : int) : label option =
   | "stall.signal" -> Some (LSignal (a = 1))
   | "task.mem.wait" -> Some LMemWait | "task.mem.woken" -> Some LMemWoken | "task.mem.running" -> Some LMemRunning
   | "task.mem.flushed" -> Some LMemFlushed | "task.mem.nopending" -> Some LMemNoPending | "task.mem.error" -> Some LMemError
-  | "task.mem.notified_level" -> Some LMemNotifiedLevel | "task.mem.idle" -> Some LMemIdle | "task.mem.exit" -> Some LMemExit
+  | "task.mem.notified_level" -> Some LMemNotifiedLevel | "task.mem.idle" -> Some LMemIdle | "task.mem.recheck" -> Some LMemRecheck | "task.mem.exit" -> Some LMemExit
   | "task.level.wait" -> Some LLevelWait | "task.level.woken" -> Some LLevelWoken | "task.level.running" -> Some LLevelRunning
   | "task.level.done" -> Some (LLevelDone (n a)) | "task.level.error" -> Some LLevelError
   | "task.level.idle" -> Some LLevelIdle | "task.level.exit" -> Some LLevelExit
@@ -84,7 +84,7 @@ let e3_label_str (l : label) : string =
   | LSignal b -> p "stall.signal" (if b then 1 else 0) 0
   | LMemWait -> p "task.mem.wait" 0 0 | LMemWoken -> p "task.mem.woken" 0 0 | LMemRunning -> p "task.mem.running" 0 0
   | LMemFlushed -> p "task.mem.flushed" 0 0 | LMemNoPending -> p "task.mem.nopending" 0 0 | LMemError -> p "task.mem.error" 0 0
-  | LMemNotifiedLevel -> p "task.mem.notified_level" 0 0 | LMemIdle -> p "task.mem.idle" 0 0 | LMemExit -> p "task.mem.exit" 0 0
+  | LMemNotifiedLevel -> p "task.mem.notified_level" 0 0 | LMemIdle -> p "task.mem.idle" 0 0 | LMemRecheck -> p "task.mem.recheck" 0 1 | LMemExit -> p "task.mem.exit" 0 0
   | LLevelWait -> p "task.level.wait" 0 0 | LLevelWoken -> p "task.level.woken" 0 0 | LLevelRunning -> p "task.level.running" 0 0
   | LLevelDone a -> p "task.level.done" (i a) 0 | LLevelError -> p "task.level.error" 0 0 | LLevelIdle -> p "task.level.idle" 0 0
   | LLevelExit -> p "task.level.exit" 0 0 | LWakeLevel -> p "task.wake_level" 0 0
@@ -108,7 +108,7 @@ let e3_pc_str (s : plstate) (a : actor) : string =
           | CApplyFailed -> "ApplyFailed" | CFailDone -> "FailDone" | CPubTop -> "PubTop" | CPubHold _ -> "PubHold"
           | CDeqLoaded _ -> "DeqLoaded" | CDeqSlot _ -> "DeqSlot" | CDeqChecked _ -> "DeqChecked" | CDeqNone -> "DeqNone"
           | CDeqWon _ -> "DeqWon" | CDeqOwned _ -> "DeqOwned" | CVisTop _ -> "VisTop" | CVisLoaded _ -> "VisLoaded"
-          | CVisDone _ -> "VisDone" | CPubExit -> "PubExit" | CWaitDone -> "WaitDone" | CRetErr -> "RetErr" | CReturned _ -> "Returned")
+          | CVisDone _ -> "VisDone" | CPubExit -> "PubExit" | CWaitDone -> "WaitDone" | CReturned _ -> "Returned")
       | None -> "no-such-thread")
   | _ -> "-"
 
